@@ -162,6 +162,8 @@ var c03Programs = []c03Prog{
 	// one: an earlier value stays what it was when later values are read
 	{`BEGINFILE { keep.push($) ; for (d in keep) { print d } }`, nil, "", ""},
 	{`BEGINFILE { prev = cur ; cur = $ ; if (prev is unknown) { print cur } else { print prev ; print cur } }`, nil, "", ""},
+	// a program that changes every value it is given: each value of the stream starts out as it was read
+	{`BEGINFILE { if ($ is object) { $.seen = $.seen + "x" ; $.a = [$.a] } if ($ is array) { $.push("x") ; $[0] = [$[0]] } print $ }`, nil, "", ""},
 }
 
 // c03Unit runs the program on a single value and returns its output (the unit of
@@ -301,6 +303,7 @@ func genC03Stream(t *rapid.T) (string, int) {
 	var sb strings.Builder
 	o := gen.DocOpts{Depth: 2, MaxItems: 3, SafeStr: true, SmallNums: true, Keys: []string{"a", "b"}}
 	sb.WriteString(rapid.SampledFrom([]string{"", "", " ", "\n"}).Draw(t, "lead"))
+	prevText := ""
 	for k := 0; k < n; k++ {
 		var v *jsonx.Val
 		if rapid.Bool().Draw(t, "scalar") {
@@ -309,6 +312,11 @@ func genC03Stream(t *rapid.T) (string, int) {
 			v = gen.JSONDoc(o).Draw(t, "dv")
 		}
 		text := gen.Compact(v)
+		if k > 0 && prevText != "" && rapid.IntRange(0, 3).Draw(t, "repeat") == 0 {
+			// the same value again, byte for byte: it is a value of its own
+			text = prevText
+		}
+		prevText = text
 		sep := rapid.SampledFrom([]string{" ", "\n", "\r\n\t", "  ", "", ""}).Draw(t, "sep")
 		if sep == "" && k+1 < n {
 			// no separator is legal only after a container or a string
